@@ -1,0 +1,88 @@
+// Copyright Suneido Software Corp. All rights reserved.
+// Governed by the MIT license found in the LICENSE file.
+
+//go:build verif
+
+package db19
+
+import (
+	"sync/atomic"
+
+	"github.com/apmckinlay/gsuneido/db19/meta"
+)
+
+// Hooks for the external verification harness (build tag verif).
+// They only expose or observe; they do not change behaviour.
+
+// VerifPoint, if set, is called by the merger goroutine at named points
+// ("merge.computed", "persist.computed") between computing a merge/persist
+// on a snapshot and applying it to the latest state.
+var VerifPoint atomic.Pointer[func(string)]
+
+// VerifStateUpdated, if set, is called (with the state mutex held)
+// after every state change. The state is immutable.
+var VerifStateUpdated atomic.Pointer[func(*DbState)]
+
+func verifPoint(name string) {
+	if f := VerifPoint.Load(); f != nil {
+		(*f)(name)
+	}
+}
+
+func verifStateUpdated(state *DbState) {
+	if f := VerifStateUpdated.Load(); f != nil {
+		(*f)(state)
+	}
+}
+
+// VerifSeq returns the checker sequence numbers of the transaction
+// (end is math.MaxInt until it is committed).
+// Only meaningful when the checker is quiescent.
+func (t *UpdateTran) VerifSeq() (start, end int) {
+	return t.ct.start, t.ct.end
+}
+
+// VerifFailure returns the transaction's failure reason ("" if none)
+func (t *UpdateTran) VerifFailure() string {
+	return t.ct.failure.Load()
+}
+
+// VerifState returns the state the update transaction started from.
+func (t *UpdateTran) VerifState() *DbState {
+	return t.ct.state
+}
+
+// VerifAbortT1 sets the existing test switch that removes the coin flip
+// in abort1of (always abort the acting transaction).
+func VerifAbortT1(b bool) {
+	checkerAbortT1 = b
+}
+
+// VerifTick injects a clock tick into the checker queue
+// (same message the tickGenerator sends once per second).
+func (db *Database) VerifTick() {
+	db.ck.(*CheckCo).pq.Put(lowPriority, 0, &ckTick{})
+}
+
+// VerifReadTranAt returns a read transaction on a specific state.
+func (db *Database) VerifReadTranAt(state *DbState) *ReadTran {
+	return &ReadTran{tran: tran{db: db, meta: state.Meta},
+		num: int(nextReadTran.Add(2))}
+}
+
+// VerifMeta returns the transaction's meta (the update transaction's
+// mutable one, or the read transaction's snapshot).
+func (t *ReadTran) VerifMeta() *meta.Meta {
+	return t.meta
+}
+
+// VerifRangeEnd exposes rangeEnd (end of the key range for a foreign key)
+func VerifRangeEnd(key string, n int) string {
+	return rangeEnd(key, n)
+}
+
+// VerifStateLen is the size of a state record in the file
+const VerifStateLen = stateLen
+
+// VerifMagic1 is the leading state marker
+const VerifMagic1 = magic1
